@@ -120,6 +120,15 @@ func genC03Try(r *Rng, idx int, tier string) *Scenario {
 		if (pn == "ftp" || pn == "smtp") && r.Chance(0.4) {
 			cmds = append(cmds, pcmd{Data: []byte("QUIT\r\n"), Note: "QUIT"})
 		}
+		if (pn == "ftp" || pn == "smtp") && r.Chance(0.2) {
+			// this session upgrades to TLS in band first; the others (plain or TLS) run beside it
+			if pn == "smtp" {
+				a.Ops = append(a.Ops, SendOp([]byte("EHLO tls"+tag+".invalid\r\n"), nil, "prelude"), SendOp([]byte("STARTTLS\r\n"), nil, "prelude"))
+			} else {
+				a.Ops = append(a.Ops, SendOp([]byte("AUTH TLS\r\n"), nil, "prelude"))
+			}
+			a.Ops = append(a.Ops, Op{K: "starttls"})
+		}
 		for _, c := range cmds {
 			var cuts []int
 			if !p.UDP && len(c.Data) > 1 && r.Chance(0.3) {
